@@ -72,7 +72,7 @@ func init() {
 		Run: func(c *fw.Ctx) {
 			// short-circuit operators whose skipped / evaluated right operand compiles to 254 ... 65537 bytes
 			for _, s := range gen.ScaledFamilies(c.Thorough()) {
-				if strings.HasPrefix(s.Name, "jump-") {
+				if strings.HasPrefix(s.Name, "jump-") || strings.HasPrefix(s.Name, "opbyte-") {
 					c.Do(subC01, &progCase{Src: s.Src})
 				}
 			}
@@ -105,7 +105,9 @@ func enumC01(c *fw.Ctx, do func(src, shard string) bool) {
 			// (a) cell table in contexts, with variables and fields of every dynamic type
 			pre := `var vi = 7; var vf = 2.5; var vs = "a"; var vb = true; var vn; `
 			// computed NaN and infinities (no literal spells them) are operands too
-			operands := append(append([]string{}, gen.AtomsT...), "vi", "vf", "vs", "vb", "vn", "(0.0/0.0)", "(1e308*10)", "(0-1e308*10)", "(0.0*(0-1))")
+			operands := append(append([]string{}, gen.AtomsT...), "vi", "vf", "vs", "vb", "vn", "(0.0/0.0)", "(1e308*10)", "(0-1e308*10)", "(0.0*(0-1))",
+				// the ends of the int range (differences and sums that do not fit)
+				"(0-9223372036854775807)", "(0-9223372036854775807-1)")
 			for _, a := range operands {
 				for _, ctx := range c01Contexts(a) {
 					do(pre+ctx, "")
